@@ -12,6 +12,8 @@ CLAIMED = {
              note='expat is represented by a 20-line XML 1.0 attribute-value decoder in the harness; strings longer than the bound are covered only through per-code-point behaviour.', ref='§2 C14'),
  'C06': dict(text='Bounded symbolic model checking of the real carry-over code of three parsers: OPL line splitting for every string over {a, LF, CR} up to the stated length and every segmentation; O5mParser header + data decoding with all real per-type decoders and PBFParser blob framing on concrete small files under every single cut, pairs of cuts, one byte at a time (and all 8192 segmentations of a 14-byte file); outcome and delivered buffers must equal the one-piece run.',
              note='The threaded pipeline is cut at queue_wrapper<std::string>::pop and add_to_queue<Buffer> (boundary models written in C++ in the wrapper TU); counterexamples are replayed natively through the real Queue/future/promise objects. XML (expat) and real decompressors as chunk sources are outside.', ref='§2 C06'),
+ 'C02': dict(text='Bounded symbolic model checking of decoder kernels against specification formulas: the PBF length prefix for all 2^32 inputs, BlobHeader decoding with fields in any order / indexdata / unknown fields and a symbolic datasize, PBFPrimitiveBlockDecoder on blocks with dense nodes and plain nodes whose deltas, offsets and metadata are symbolic (non-default granularity, offsets, date granularity, missing Info), and the o5m string reference table ring law including wrap-around.',
+             note='Kernel level only: XML (expat), zlib/lz4 inflation, whole-file agreement of the four readers and blocks with more than two entities are outside; protozero is interpreted from its headers.', ref='§2 C02'),
 }
 NA = {
  'C19': 'The property is its schedule quantifier (lost wake-ups, FIFO under contention, exactly-once execution); bounded symbolic interleaving with cbmc did not finish a 2-thread toy monitor in 200 s here, and enumerating schedules would be a different technique family.',
